@@ -27,7 +27,12 @@ EXTRA = {"C01-2": ["C07"], "C04-1": ["C07"], "C06-2": ["C07"], "C03-b1": ["C07"]
          "C09-v1": ["C06", "C01"], "C09-v2": ["C12", "C10"], "C11-v1": ["C04"], "C11-v2": ["C13"], "C12-v1": ["C09"], "C12-v2": ["C09"],
          "C13-v1": ["C08"], "C13-v2": ["C07"], "C15-v1": ["C14"], "C15-v2": ["C07", "C16"], "C17-v2": ["C13"], "C18-v1": ["C03", "C15"],
          "C18-v2": ["C13"], "C19-v1": ["C06"], "C19-v2": ["C13"], "C20-v2": ["C12"], "C10-v1": ["C09", "C13"], "C10-v2": ["C09", "C13"],
-         "C16-v1": ["C07"], "C16-v2": ["C07"]}
+         "C16-v1": ["C07"], "C16-v2": ["C07"],
+         "C01-w2": ["C07", "C02"], "C02-w1": ["C01"], "C03-w1": ["C05"], "C03-w2": ["C07", "C12"], "C04-w1": ["C13"], "C04-w2": ["C07"],
+         "C05-w1": ["C04"], "C05-w2": ["C13", "C01"], "C06-w2": ["C19"], "C07-w1": ["C02", "C09"], "C07-w2": ["C16"], "C08-w1": ["C17"],
+         "C08-w2": ["C12"], "C09-w1": ["C07", "C02"], "C09-w2": ["C12", "C10"], "C10-w1": ["C13"], "C10-w2": ["C13"], "C11-w1": ["C04"],
+         "C11-w2": ["C01"], "C12-w1": ["C08"], "C13-w2": ["C04"], "C15-w1": ["C10", "C05"], "C15-w2": ["C14", "C11"], "C16-w1": ["C08"],
+         "C16-w2": ["C08", "C13"], "C17-w1": ["C11"], "C17-w2": ["C05"], "C18-w2": ["C13"], "C19-w1": ["C06"], "C20-w2": ["C14"]}
 def run_one(name, checks):
     d = os.path.join(SEEDED, name)
     wt = tempfile.mkdtemp(prefix="hsv-mx-", dir="/tmp"); os.rmdir(wt)
